@@ -1,0 +1,109 @@
+//go:build verif
+
+package p2pke
+
+import (
+	"sync"
+	"sync/atomic"
+	"time"
+	"unsafe"
+)
+
+func verifSessionID(s *Session) uint64 { return uint64(uintptr(unsafe.Pointer(s))) }
+
+// VerifID returns the identifier used for this session in verifhook events.
+func (s *Session) VerifID() uint64 { return verifSessionID(s) }
+
+// VerifSetSendCounter sets the outbound counter of a session.
+func (s *Session) VerifSetSendCounter(n uint64) { atomic.StoreUint64(&s.nonce, n) }
+
+// VerifSendCounter returns the outbound counter of a session.
+func (s *Session) VerifSendCounter() uint64 { return atomic.LoadUint64(&s.nonce) }
+
+// VerifHsIndex returns the handshake state index.
+func (s *Session) VerifHsIndex() uint8 { return s.hsIndex }
+
+// VerifTimings overrides the timing parameters of channels created while it is set.
+type VerifTimings struct {
+	KeepAliveTimeout time.Duration
+	HandshakeBackoff time.Duration
+	RekeyAfterTime   time.Duration
+	RejectAfterTime  time.Duration
+}
+
+var (
+	verifTimingsMu sync.RWMutex
+	verifTimings   *VerifTimings
+)
+
+// VerifSetChannelTimings installs (or with nil removes) an override applied to every
+// ChannelConfig passed to NewChannel whose corresponding field is zero.
+func VerifSetChannelTimings(t *VerifTimings) {
+	verifTimingsMu.Lock()
+	defer verifTimingsMu.Unlock()
+	verifTimings = t
+}
+
+func verifAdjustConfig(params *ChannelConfig) {
+	verifTimingsMu.RLock()
+	t := verifTimings
+	verifTimingsMu.RUnlock()
+	if t == nil {
+		return
+	}
+	if params.KeepAliveTimeout == 0 {
+		params.KeepAliveTimeout = t.KeepAliveTimeout
+	}
+	if params.HandshakeBackoff == 0 {
+		params.HandshakeBackoff = t.HandshakeBackoff
+	}
+	if params.RekeyAfterTime == 0 {
+		params.RekeyAfterTime = t.RekeyAfterTime
+	}
+	if params.RejectAfterTime == 0 {
+		params.RejectAfterTime = t.RejectAfterTime
+	}
+}
+
+// VerifTimers reports whether the rekey and handshake timers are pending.
+func (c *Channel) VerifTimers() (rekeyPending, handshakePending bool) {
+	return c.rekeyTimer.IsPending(), c.handshakeTimer.IsPending()
+}
+
+// VerifSlot describes one of the channel's session slots.
+type VerifSlot struct {
+	Occupied bool
+	Ready    bool
+	IsInit   bool
+	HsIndex  uint8
+	ID       uint64
+}
+
+// VerifSlots returns the state of the previous, current and next session slots.
+func (c *Channel) VerifSlots() (ret [3]VerifSlot) {
+	c.mu.RLock()
+	defer c.mu.RUnlock()
+	for i, se := range c.sessions {
+		if se.Session == nil {
+			continue
+		}
+		ret[i] = VerifSlot{
+			Occupied: true,
+			Ready:    se.Session.IsReady(),
+			IsInit:   se.Session.isInit,
+			HsIndex:  se.Session.hsIndex,
+			ID:       verifSessionID(se.Session),
+		}
+	}
+	return ret
+}
+
+// VerifSessions returns the sessions in the three slots (may contain nils).
+func (c *Channel) VerifSessions() (ret [3]*Session) {
+	c.mu.RLock()
+	defer c.mu.RUnlock()
+	for i, se := range c.sessions {
+		ret[i] = se.Session
+	}
+	return ret
+}
